@@ -176,6 +176,8 @@ def wide_scope(n, free=('a', 'b', 'aa', 'ab', 'z', 'A'), inner=True):
     if inner:
         inner_src = (' function inner(p0, p1) { var w0 = v0 + v1 + p0; try { w0(p1); } catch (e) { e(v2); } '
                      'return function named() { return named(w0, v%d, %s); }; }' % (n - 1, free[0]))
-    return ('function wide() { var %s; var total = %s + %s + %s;%s return inner ? total : 0; } wide(%s);'
-            % (decls, uses, extra, frees, inner_src, frees)) if inner else \
+    # a catch clause directly in the wide body: its parameter is named after everything the function holds
+    own_catch = ' try { v0(total); } catch (caught) { caught(v1, %s); try { v2(); } catch (again) { again(caught); } }' % free[0]
+    return ('function wide() { var %s; var total = %s + %s + %s;%s%s return inner ? total : 0; } wide(%s);'
+            % (decls, uses, extra, frees, inner_src, own_catch, frees)) if inner else \
         ('function wide() { var %s; return %s + %s + %s; }' % (decls, uses, extra, frees))
